@@ -19,6 +19,9 @@ const prop = "vec"
 type cfgT struct {
 	Inst sl.InstCfg `json:"inst"`
 	Dim  int        `json:"dim"`
+	// Nested: the graph index sits on the nested property path "m.v" (the vector is a member of the
+	// object "m"), so that an update can reach it through its parent object
+	Nested bool `json:"nested,omitempty"`
 }
 
 func onehot(dim int, idx ...int) []float32 {
@@ -30,6 +33,26 @@ func onehot(dim int, idx ...int) []float32 {
 }
 
 func f32(v float32) *float32 { return &v }
+
+const nestedProp = "m.v"
+
+// nestedSymbols: the vector lives inside the object "m"; it is set, moved and removed by updates
+// that name the parent object (replace it, drop it) - never the dotted path itself.
+func nestedSymbols(dim int) *sl.Symbols {
+	lat := sl.Lattice(16, dim)
+	d := func(i int) sl.Doc { return sl.Doc{"m": sl.Doc{"v": lat[i], "tag": int64(i)}, "k": int64(i)} }
+	return sl.NewSymbols(
+		sl.Op{Name: "ins1", Kind: "ins", Ids: []int{1}, Docs: []sl.Doc{d(0)}},
+		sl.Op{Name: "ins2,3,4", Kind: "ins", Ids: []int{2, 3, 4}, Docs: []sl.Doc{d(1), d(2), d(3)}},
+		sl.Op{Name: "upd2(parent replaced, vector gone)", Kind: "upd", Ids: []int{2}, Docs: []sl.Doc{{"m": sl.Doc{"tag": int64(99)}}}},
+		sl.Op{Name: "upd3(parent _delete)", Kind: "upd", Ids: []int{3}, Docs: []sl.Doc{{"m": "_delete"}}},
+		sl.Op{Name: "upd2,3(parent replaced, vector moved)", Kind: "upd", Ids: []int{2, 3}, Docs: []sl.Doc{{"m": sl.Doc{"v": lat[8]}}, {"m": sl.Doc{"v": lat[9]}}}},
+		sl.Op{Name: "upd1(other field)", Kind: "upd", Ids: []int{1}, Docs: []sl.Doc{{"k": int64(77)}}},
+		sl.Op{Name: "del2", Kind: "del", Ids: []int{2}},
+		sl.Op{Name: "del1,3", Kind: "del", Ids: []int{1, 3}},
+		sl.Op{Name: "ins2,5(reuse)", Kind: "ins", Ids: []int{2, 5}, Docs: []sl.Doc{d(10), d(11)}},
+	)
+}
 
 func symbols(dim int) *sl.Symbols {
 	lat := sl.Lattice(16, dim)
@@ -86,12 +109,16 @@ func factory(raw json.RawMessage) (seqx.System, error) {
 	if err != nil {
 		return nil, err
 	}
+	prop, syms := prop, symbols(c.Dim)
+	if c.Nested {
+		prop, syms = nestedProp, nestedSymbols(c.Dim)
+	}
 	params := *c.Inst.Schema[prop].VectorVamana
 	var uni []int
 	for i := 1; i <= 6; i++ {
 		uni = append(uni, i)
 	}
-	return &sl.ShardSystem{In: in, M: sl.NewModel(c.Inst.Schema, in.Cfg.MaxPointSize), Syms: symbols(c.Dim),
+	return &sl.ShardSystem{In: in, M: sl.NewModel(c.Inst.Schema, in.Cfg.MaxPointSize), Syms: syms,
 		Battery: func(s *sl.ShardSystem) {
 			s.In.GraphCheck(&s.Obs, s.M, prop, params)
 			s.In.RawPointStore(&s.Obs, s.M)
@@ -128,10 +155,10 @@ func master(cfg *harness.Config, rep *harness.Report) {
 				return models.IndexSchema{prop: {Type: models.IndexTypeVectorVamana, VectorVamana: &models.IndexVectorVamanaParameters{VectorSize: dim, DistanceMetric: models.DistanceEuclidean, SearchSize: 25, DegreeBound: deg, Alpha: alpha}}}
 			}
 			name := fmt.Sprintf("alpha%.1f/deg%d", alpha, deg)
-			warm := cfgT{sl.InstCfg{Backend: "bbolt", CacheSize: -1, Schema: mk(2), Proxy: true}, 2}
-			cold := cfgT{sl.InstCfg{Backend: "bbolt", CacheSize: -1, ReopenEachOp: true, Schema: mk(2), Proxy: true}, 2}
-			warm48 := cfgT{sl.InstCfg{Backend: "bbolt", CacheSize: -1, Schema: mk(48), Proxy: true}, 48}
-			cold48 := cfgT{sl.InstCfg{Backend: "bbolt", CacheSize: -1, ReopenEachOp: true, Schema: mk(48), Proxy: true}, 48}
+			warm := cfgT{Inst: sl.InstCfg{Backend: "bbolt", CacheSize: -1, Schema: mk(2), Proxy: true}, Dim: 2}
+			cold := cfgT{Inst: sl.InstCfg{Backend: "bbolt", CacheSize: -1, ReopenEachOp: true, Schema: mk(2), Proxy: true}, Dim: 2}
+			warm48 := cfgT{Inst: sl.InstCfg{Backend: "bbolt", CacheSize: -1, Schema: mk(48), Proxy: true}, Dim: 48}
+			cold48 := cfgT{Inst: sl.InstCfg{Backend: "bbolt", CacheSize: -1, ReopenEachOp: true, Schema: mk(48), Proxy: true}, Dim: 48}
 			if deg == 32 || alpha == 1.1 || !cfg.Quick() {
 				specs = append(specs, seqx.Spec{Name: name + "/warm", Cfg: warm, Alphabet: syms.Refs(small...), Depth: depth})
 			}
@@ -148,6 +175,14 @@ func master(cfg *harness.Config, rep *harness.Report) {
 				specs = append(specs, seqx.Spec{Name: name + "/warm/failing-commits", Cfg: warm, Alphabet: syms.Refs(failing...), Depth: depth})
 			}
 		}
+	}
+	// the index on a nested property path, reached by updates through its parent object
+	{
+		schema := models.IndexSchema{nestedProp: {Type: models.IndexTypeVectorVamana, VectorVamana: &models.IndexVectorVamanaParameters{VectorSize: 2, DistanceMetric: models.DistanceEuclidean, SearchSize: 25, DegreeBound: 32, Alpha: 1.1}}}
+		all := nestedSymbols(2).Refs()
+		specs = append(specs,
+			seqx.Spec{Name: "nested-property/warm", Cfg: cfgT{Inst: sl.InstCfg{Backend: "bbolt", CacheSize: -1, Schema: schema, Proxy: true}, Dim: 2, Nested: true}, Alphabet: all, Depth: depth},
+			seqx.Spec{Name: "nested-property/cold", Cfg: cfgT{Inst: sl.InstCfg{Backend: "bbolt", CacheSize: -1, ReopenEachOp: true, Schema: schema, Proxy: true}, Dim: 2, Nested: true}, Alphabet: all, Depth: depth - 1})
 	}
 	seqx.Explore(cfg, rep, p, specs)
 }
